@@ -125,24 +125,25 @@ def make_classes(style, T):
     raise KeyError(style)
 
 
+# (falsy values of the wrong type are in every list on purpose: '' 0 [] {} () 0.0 False)
 # label: 'ok' conforming (stored value must equal), 'co' coercible (either outcome; a completed value must conform), 'bad' non-conforming
 TYPES: dict[str, tuple[type, Any, list]] = {
     'none': (EvNone, None, [('ok', 1), ('ok', 'a'), ('ok', [1, 'x']), ('ok', {'k': object}), ('ok', 1.5), ('ok', b'z')]),
-    'int': (EvInt, lambda v: isinstance(v, int), [('ok', 5), ('ok', 0), ('ok', -3), ('co', '7'), ('co', 7.0), ('co', True), ('bad', 'x'), ('bad', 7.5), ('bad', [1]), ('bad', {'a': 1})]),
-    'str': (EvStr, lambda v: isinstance(v, str), [('ok', 'hi'), ('ok', ''), ('bad', 5), ('bad', [1]), ('bad', {'a': 1}), ('co', b'raw')]),
-    'bool': (EvBool, lambda v: isinstance(v, bool), [('ok', True), ('ok', False), ('co', 1), ('co', 'true'), ('bad', 'maybe'), ('bad', 7), ('bad', [])]),
-    'float': (EvFloat, lambda v: isinstance(v, float), [('ok', 1.5), ('co', 2), ('co', '3.5'), ('bad', 'x'), ('bad', [1.0])]),
-    'bytes': (EvBytes, lambda v: isinstance(v, bytes), [('ok', b'ab'), ('co', 'text'), ('bad', 5), ('bad', [1])]),
-    'list[int]': (EvListInt, lambda v: isinstance(v, list) and all(isinstance(x, int) for x in v), [('ok', [1, 2]), ('ok', []), ('co', ['1', 2]), ('co', (1, 2)), ('bad', ['x']), ('bad', 5), ('bad', {'a': 1})]),
+    'int': (EvInt, lambda v: isinstance(v, int), [('bad', ''), ('bad', []), ('co', 0.0), ('co', False), ('ok', 5), ('ok', 0), ('ok', -3), ('co', '7'), ('co', 7.0), ('co', True), ('bad', 'x'), ('bad', 7.5), ('bad', [1]), ('bad', {'a': 1})]),
+    'str': (EvStr, lambda v: isinstance(v, str), [('bad', 0), ('bad', []), ('bad', {}), ('ok', 'hi'), ('ok', ''), ('bad', 5), ('bad', [1]), ('bad', {'a': 1}), ('co', b'raw')]),
+    'bool': (EvBool, lambda v: isinstance(v, bool), [('co', 0), ('co', ''), ('bad', {}), ('ok', True), ('ok', False), ('co', 1), ('co', 'true'), ('bad', 'maybe'), ('bad', 7), ('bad', [])]),
+    'float': (EvFloat, lambda v: isinstance(v, float), [('co', 0), ('bad', ''), ('bad', []), ('ok', 1.5), ('co', 2), ('co', '3.5'), ('bad', 'x'), ('bad', [1.0])]),
+    'bytes': (EvBytes, lambda v: isinstance(v, bytes), [('co', ''), ('bad', 0), ('bad', []), ('ok', b'ab'), ('co', 'text'), ('bad', 5), ('bad', [1])]),
+    'list[int]': (EvListInt, lambda v: isinstance(v, list) and all(isinstance(x, int) for x in v), [('co', ()), ('bad', 0), ('bad', ''), ('co', {}), ('ok', [1, 2]), ('ok', []), ('co', ['1', 2]), ('co', (1, 2)), ('bad', ['x']), ('bad', 5), ('bad', {'a': 1})]),
     'dict[str,int]': (EvDictStrInt, lambda v: isinstance(v, dict) and all(isinstance(k, str) and isinstance(x, int) for k, x in v.items()),
-                      [('ok', {'a': 1}), ('ok', {}), ('co', {'a': '2'}), ('bad', {'a': 'x'}), ('bad', [1]), ('bad', 5)]),
-    'int|None': (EvIntOrNone, lambda v: v is None or isinstance(v, int), [('ok', 5), ('ok', 0), ('co', '7'), ('bad', 'x'), ('bad', [1])]),
-    'Optional[str]': (EvOptStr, lambda v: v is None or isinstance(v, str), [('ok', 'hi'), ('ok', ''), ('bad', 5), ('bad', [1])]),
-    'Union[int,str]': (EvUnion, lambda v: isinstance(v, (int, str)), [('ok', 5), ('ok', 'x'), ('bad', [1]), ('bad', {'a': 1}), ('co', 2.0), ('bad', 2.5)]),
-    "Literal['a','b']": (EvLiteral, lambda v: v in ('a', 'b'), [('ok', 'a'), ('ok', 'b'), ('bad', 'c'), ('bad', 1), ('bad', ['a'])]),
-    'Model': (EvModel, lambda v: isinstance(v, M), [('ok', M(x=1)), ('co', {'x': 2}), ('co', {'x': '3'}), ('bad', {'y': 1}), ('bad', 5), ('bad', 'x')]),
-    'list[Model]': (EvListModel, lambda v: isinstance(v, list) and all(isinstance(x, M) for x in v), [('ok', [M(x=1)]), ('ok', []), ('co', [{'x': 1}]), ('bad', [{'y': 1}]), ('bad', 5)]),
-    'tuple[int,str]': (EvTuple, lambda v: isinstance(v, tuple) and len(v) == 2 and isinstance(v[0], int) and isinstance(v[1], str), [('ok', (1, 'a')), ('co', [1, 'a']), ('bad', (1,)), ('bad', ('a', 1)), ('bad', 5)]),
+                      [('co', []), ('bad', 0), ('bad', ''), ('ok', {'a': 1}), ('ok', {}), ('co', {'a': '2'}), ('bad', {'a': 'x'}), ('bad', [1]), ('bad', 5)]),
+    'int|None': (EvIntOrNone, lambda v: v is None or isinstance(v, int), [('bad', ''), ('bad', []), ('co', 0.0), ('ok', 5), ('ok', 0), ('co', '7'), ('bad', 'x'), ('bad', [1])]),
+    'Optional[str]': (EvOptStr, lambda v: v is None or isinstance(v, str), [('bad', 0), ('bad', []), ('ok', 'hi'), ('ok', ''), ('bad', 5), ('bad', [1])]),
+    'Union[int,str]': (EvUnion, lambda v: isinstance(v, (int, str)), [('bad', []), ('bad', {}), ('co', 0.0), ('ok', 5), ('ok', 'x'), ('bad', [1]), ('bad', {'a': 1}), ('co', 2.0), ('bad', 2.5)]),
+    "Literal['a','b']": (EvLiteral, lambda v: v in ('a', 'b'), [('bad', ''), ('bad', 0), ('bad', []), ('ok', 'a'), ('ok', 'b'), ('bad', 'c'), ('bad', 1), ('bad', ['a'])]),
+    'Model': (EvModel, lambda v: isinstance(v, M), [('co', {}), ('bad', 0), ('bad', ''), ('bad', []), ('ok', M(x=1)), ('co', {'x': 2}), ('co', {'x': '3'}), ('bad', {'y': 1}), ('bad', 5), ('bad', 'x')]),
+    'list[Model]': (EvListModel, lambda v: isinstance(v, list) and all(isinstance(x, M) for x in v), [('co', ()), ('bad', 0), ('bad', ''), ('ok', [M(x=1)]), ('ok', []), ('co', [{'x': 1}]), ('bad', [{'y': 1}]), ('bad', 5)]),
+    'tuple[int,str]': (EvTuple, lambda v: isinstance(v, tuple) and len(v) == 2 and isinstance(v[0], int) and isinstance(v[1], str), [('co', ()), ('bad', 0), ('bad', ''), ('ok', (1, 'a')), ('co', [1, 'a']), ('bad', (1,)), ('bad', ('a', 1)), ('bad', 5)]),
 }
 
 
